@@ -6,7 +6,8 @@ import shutil
 
 import vlib
 
-PROPERTIES = ["C19"]
+PROPERTIES = ["C19", "C09"]   # C09: only through the alias below (a FAILED Ethereum tx changed module state)
+TAG_ALIASES = {"C19_FailedChangedState": ["C09_FailedButChanged_EthTx"]}
 
 # Deviations (spec/EvmTx.tla DEVS): name -> (action property TLC must refute with the deviation on, cfg).
 # The ACTIVE ones are those named by a C19 entry of known_findings.json ("dev" field) that is not `fixed`:
@@ -49,6 +50,7 @@ WORLDS = {
 TAG_UNIVERSE = {
     "C19": ["C19_Nonce", "C19_GasBounds", "C19_SenderPays", "C19_CollectorReceives", "C19_RecipientGets", "C19_ZeroSum",
             "C19_FailedChangedState", "C19_RejectedChangedState", "C19_InadmissibleIncluded", "C19_RevertedFrameKeptState"],
+    "C09": ["C09_FailedButChanged_EthTx"],
 }
 
 
